@@ -1,7 +1,7 @@
 CONSTANTS
   MinKeys = 0
-  MaxKeys = 2
-  NI = 2
+  MaxKeys = 1
+  NI = 3
   MaxRF = 2
   Shape = "any"
   Grain = "atomic"
